@@ -818,3 +818,89 @@ func FuncName(fn *ssa.Function) string {
 	s = strings.ReplaceAll(s, ModulePath, "dawn")
 	return s
 }
+
+// EffectivePoints returns program points such that every execution reaching `in` most recently
+// passed through one of them with strictly more information: when the facts at `in` contain a
+// condition that is a phi of boolean constants (a flag variable such as `spawn := false; if c { spawn = true }`),
+// the points are the terminators of the predecessor blocks whose incoming constant agrees with the
+// fact. Without such a fact the result is [in]. A rule that must hold "at in" may be checked at every
+// effective point instead (path-sensitivity for flag variables).
+func (p *Prog) EffectivePoints(in ssa.Instruction) []ssa.Instruction {
+	return p.effPoints(in, 0)
+}
+
+func (p *Prog) effPoints(in ssa.Instruction, depth int) []ssa.Instruction {
+	if depth > 3 {
+		return []ssa.Instruction{in}
+	}
+	for f := range p.FactsAt(in) {
+		phi, ok := f.Cond.(*ssa.Phi)
+		if !ok {
+			continue
+		}
+		allConstOrSkip := true
+		var pts []ssa.Instruction
+		for i, e := range phi.Edges {
+			b, okc := ConstBool(e)
+			if !okc {
+				allConstOrSkip = false
+				break
+			}
+			if b == f.Val {
+				pred := phi.Block().Preds[i]
+				pts = append(pts, p.effPoints(pred.Instrs[len(pred.Instrs)-1], depth+1)...)
+			}
+		}
+		if allConstOrSkip && len(pts) > 0 {
+			return pts
+		}
+	}
+	return []ssa.Instruction{in}
+}
+
+// LoopIndexCoversAll reports whether idx is the induction value of a loop that starts at 0, steps by 1
+// and whose body (the block of user) executes exactly when idx < len(slice): both the rotated
+// `for i := range s` form and the `for i := 0; i < len(s); i++` form are recognised.
+func (p *Prog) LoopIndexCoversAll(idx ssa.Value, slice ssa.Value, user ssa.Instruction, sameSlice func(a, b ssa.Value) bool) bool {
+	startsAtZeroStepOne := false
+	switch x := idx.(type) {
+	case *ssa.BinOp: // rangeindex: idx = phi + 1, phi = [-1, idx]
+		if x.Op == token.ADD {
+			if phi, ok := x.X.(*ssa.Phi); ok && len(phi.Edges) == 2 {
+				k, okk := ConstInt(x.Y)
+				for i := 0; i < 2; i++ {
+					c, okc := ConstInt(phi.Edges[i])
+					if okk && k == 1 && okc && c == -1 && phi.Edges[1-i] == ssa.Value(x) {
+						startsAtZeroStepOne = true
+					}
+				}
+			}
+		}
+	case *ssa.Phi: // for i := 0; ...; i++
+		if len(x.Edges) == 2 {
+			for i := 0; i < 2; i++ {
+				c, okc := ConstInt(x.Edges[i])
+				if inc, ok := x.Edges[1-i].(*ssa.BinOp); ok && okc && c == 0 && inc.Op == token.ADD && inc.X == ssa.Value(x) {
+					if k, okk := ConstInt(inc.Y); okk && k == 1 {
+						startsAtZeroStepOne = true
+					}
+				}
+			}
+		}
+	}
+	if !startsAtZeroStepOne {
+		return false
+	}
+	return p.FactsAt(user).Find(func(cond ssa.Value, val bool) bool {
+		cmp, ok := cond.(*ssa.BinOp)
+		if !ok || !val || cmp.Op != token.LSS || cmp.X != idx {
+			return false
+		}
+		ln, ok := cmp.Y.(*ssa.Call)
+		if !ok {
+			return false
+		}
+		b, ok := ln.Call.Value.(*ssa.Builtin)
+		return ok && b.Name() == "len" && sameSlice(ln.Call.Args[0], slice)
+	})
+}
